@@ -72,6 +72,23 @@ CHECKS = {
             'wrong atom count) is injected at every applicable line of every file of <=2 (3) chunks and must be rejected.',
             'The documented grammar features one at a time inside fixed chunks, not all feature combinations; .mapping (modification mapping) '
             'files and force-field-wide citations are not compared; one known finding (index 0 in .ff) is reported, not repaired.', '§4 C13'),
+    'C06': ('B', 'bounded exhaustive enumeration of all labelled patterns x all graphs up to isomorphism x relabellings x colourings on the real ISMAGS, brute-force backtracking oracle with Aut(pattern) orbits',
+            'model_checking',
+            'All 75 labelled pattern graphs on <=4 nodes (thorough: all 1099 on <=5) against all 52 graphs on <=5 nodes (thorough 208 on <=6) '
+            'under 2-3 relabellings, all two-colourings of nodes (pattern<=3/4 x graph<=4) and of edges, plus a family of larger symmetric '
+            'patterns (paths, cycles, stars, K2,n, ladders, double stars, the double spider, all trees <=7/8) against themselves +/- a node or '
+            'edge. find_isomorphisms(symmetry=False) must equal the brute-force set I with no duplicate; symmetry=True must give exactly one '
+            'member per orbit of I under the brute-force Aut(pattern); largest_common_subgraph must return only maximum common induced '
+            'subgraphs and cover every maximum one up to Aut(pattern).',
+            'Graphs larger than the bounds are only represented by the structured family; equality functions are colour equalities.', '§4 C06'),
+    'C09': ('B', 'bounded exhaustive enumeration of weight tuples x missing-coordinate subsets x centre-weight modes x 72 rigid motions on the real averaging code, exact rational oracle',
+            'model_checking',
+            'For n=1..4 constituents every weight tuple over {0,1/2,1,2,1/3}, every subset of constituents without coordinates (absent/None), '
+            'four centre-weight modes (none, explicit mass, force-field mass, force-field mass switched off), each under the 24 axis rotations '
+            'x 3 lattice translations (integer lattice, exact), plus shared atoms, atom-less particles, absent weight tables and every sequence '
+            '(<=3) of molecules with differently configured force fields through ONE processor instance. Oracle: fractions.Fraction mean over '
+            'positioned constituents, NaN iff their weight sum is zero, bounding box, equivariance.',
+            'At most 4 constituents per particle; quick runs the n=4 tuples with <=3 distinct weights (thorough: all 625).', '§4 C09'),
     'C07': ('A+D', 'explicit-state BFS over deferred-writer histories with a dict file-system model; exhaustive crash-point/torn-write enumeration of every finalisation; audit-hook monitor over all library writers; full product of a CLI run alphabet through the script\'s own entry() bound to real sub-processes',
             'model_checking',
             'Four layers. (1) every enabled operation (open w/a/r+/wb incl. re-opens, files appearing from outside, write, close) in every '
